@@ -86,10 +86,11 @@ theorem c09_per_producer_order {s : State} (h : Reachable s) (c p : Nat) :
   (c09_consumer_sees_push_order h c).filter _
 
 /-- A pop future is resolved (or being resolved) only (a) with an item that was pushed, (b) by a successful
-`unblock_pop(c)` that took exactly this pop, with that exception, or (c) as canceled after the queue was destroyed. -/
+`unblock_pop(c)` that took exactly this pop, with that exception, (c) as canceled after the queue was destroyed, or
+(d) as canceled by a `push` that had taken this pop's promise and whose item construction then threw. -/
 theorem c09_pop_completes_only_when {s : State} (h : Reachable s) (e : Ev) (he : e ∈ s.inflight ++ s.completed) :
     (∃ it, e.out = Out.val it ∧ it ∈ s.pushed) ∨ (∃ c, e.out = Out.exc c ∧ (e.pop, c) ∈ s.unblocks)
-      ∨ (e.out = Out.canceled ∧ s.alive = false) := by
+      ∨ (e.out = Out.canceled ∧ s.alive = false) ∨ (e.out = Out.canceled ∧ e.pop ∈ s.throws) := by
   have hi := reachable_inv h
   have hs := mem_served_of_resolved hi he
   cases ho : e.out with
@@ -109,7 +110,9 @@ theorem c09_pop_completes_only_when {s : State} (h : Reachable s) (e : Ev) (he :
     exact ⟨e, hs, by simp [excOf, ho]⟩
   | canceled =>
     right; right
-    exact ⟨rfl, hi.cancel_dead e hs ho⟩
+    rcases hi.cancel_dead e hs ho with hd | ht
+    · exact Or.inl ⟨rfl, hd⟩
+    · exact Or.inr ⟨rfl, ht⟩
 
 /-- … and a parked pop is not resolved at all. -/
 theorem c09_parked_pop_pending {s : State} (h : Reachable s) (w : Pop) (hw : w ∈ s.waiters) :
@@ -150,17 +153,20 @@ theorem c09_push_decision (s : State) (p v : Nat) :
   · intro w ws h; simp [h]
   · intro h; simp [h]
 
-/-- A `push` whose item constructor throws (no pop waiting) has no effect at all: the state - items, waiters, every
-future, the lock (a lock region is a step: it has ended) - is what it was, and the caller sees the exception. -/
-theorem c09_push_throw_no_effect (s : State) :
-    (step s Op.pushthrow).1 = s ∧ (s.alive = true → s.waiters = [] → (step s Op.pushthrow).2 = Res.threw) := by
-  unfold step
-  constructor
-  · simp only; split
-    · exact pushThrow_state s
-    · rfl
-  · intro ha hw
-    simp [ha, stepLive, stepPushThrow, hw]
+/-- A `push` whose item constructor throws: the caller sees the exception and no item comes into existence (nothing is
+queued, `pushed` and the push serials are untouched).  With nobody waiting nothing changes at all; with pops waiting
+exactly the oldest one is taken and completes as canceled (resolved outside the lock), the others stay parked. -/
+theorem c09_push_throw (s : State) :
+    (stepPushThrow s).2 = Res.threw ∧ (stepPushThrow s).1.items = s.items ∧ (stepPushThrow s).1.pushed = s.pushed
+    ∧ (stepPushThrow s).1.nextPush = s.nextPush ∧ (stepPushThrow s).1.completed = s.completed ∧
+    (s.waiters = [] → (stepPushThrow s).1 = s) ∧
+    (∀ w ws, s.waiters = w :: ws → (stepPushThrow s).1.waiters = ws
+        ∧ (stepPushThrow s).1.inflight = s.inflight ++ [⟨w, Out.canceled⟩]
+        ∧ (stepPushThrow s).1.throws = s.throws ++ [w]) := by
+  unfold stepPushThrow
+  cases hw : s.waiters with
+  | nil => simp
+  | cons w ws => simp
 
 /-- `unblock_pop(c)` fails exactly the oldest waiting pop with the given exception and touches nothing else;
 with nobody waiting it reports false and is a no-op. -/
